@@ -65,24 +65,32 @@ theorem closeT_trunc (q : Rat) : closeT q (truncI q : Rat) = true := by
   have h := truncI_close q
   simp [closeT, h.1, h.2]
 
-theorem closeList_map {α} (f : α → α → Bool) (g : α → α) (h : ∀ a, f a (g a) = true) :
-    ∀ l : List α, closeList f l (l.map g) = true
-  | [] => rfl
-  | a :: t => by simp [closeList, h a, closeList_map f g h t]
+theorem closeList_map {α} (f : α → α → Bool) (g : α → α) :
+    ∀ l : List α, (∀ a ∈ l, f a (g a) = true) → closeList f l (l.map g) = true
+  | [], _ => rfl
+  | a :: t, h => by
+    simp [closeList, h a (by simp), closeList_map f g t (fun b hb => h b (by simp [hb]))]
+
+theorem ksFill_of_ne (k : KsCell) (h : (k != .nan) = true) : ksFill k = k := by
+  cases k with
+  | nan => simp at h
+  | list l => rfl
 
 /-- **What a file can carry is within 1 ms of the chart**: every head, tail, tempo point and scroll velocity
-of `quantize c` lies less than 1 ms from its original; lanes, key sounds, tempi, multipliers are unchanged. -/
-theorem closeChart_quantize (c : Chart) : closeChart c (quantize c) = true := by
+of `quantize c` lies less than 1 ms from its original; lanes, key sounds, tempi, multipliers are unchanged
+(`ksLists`: a hand-made NaN key-sound cell is not a list and reads back as `[]`; the code no longer produces one). -/
+theorem closeChart_quantize (c : Chart) (hk : ksLists c = true) : closeChart c (quantize c) = true := by
+  simp only [ksLists, Bool.and_eq_true, List.all_eq_true] at hk
   unfold closeChart quantize
   simp only [Bool.and_eq_true]
-  refine ⟨⟨⟨closeList_map _ _ ?_ _, closeList_map _ _ ?_ _⟩, closeList_map _ _ ?_ _⟩, closeList_map _ _ ?_ _⟩
-  · intro h; simp [closeHit, qHit, closeT_trunc]
-  · intro h
+  refine ⟨⟨⟨closeList_map _ _ _ ?_, closeList_map _ _ _ ?_⟩, closeList_map _ _ _ ?_⟩, closeList_map _ _ _ ?_⟩
+  · intro h hh; simp [closeHit, qHit, closeT_trunc, ksFill_of_ne _ (hk.1 h hh)]
+  · intro h hh
     simp only [closeHold, qHold, Bool.and_eq_true]
     rw [add_sub_self]
-    simp [closeT_trunc]
-  · intro b; simp [closeBpm, qBpm, closeT_trunc]
-  · intro s; simp [closeSv, qSv, closeT_trunc]
+    simp [closeT_trunc, ksFill_of_ne _ (hk.2 h hh)]
+  · intro b _; simp [closeBpm, qBpm, closeT_trunc]
+  · intro s _; simp [closeSv, qSv, closeT_trunc]
 
 /-! ## write, then read -/
 
@@ -316,7 +324,7 @@ theorem readMeta_written (m : Rec) (h : MetaOk m) : readMeta (m.map wvP) = .ok m
     exact readMetaVal_written m h kv hkv d
 
 /-- **Read after write** (`qua_read_write`): for every chart whose rows have exactly the declared fields —
-any lanes, any (also NaN) key sounds, any rational times of either sign, hits only, holds only, empty
+any lanes, any key sounds (a hand-made NaN cell reads back as `[]`, see `quantize`), any rational times of either sign, hits only, holds only, empty
 sections — and whose metadata has the 21 attributes with tags that can survive a file, reading the written
 document yields exactly `quantize c`: the same objects, in the same order, times truncated to whole
 milliseconds (`closeChart_quantize`: each moved by less than 1 ms), tempo points with the default metronome. -/
@@ -372,7 +380,7 @@ theorem entryAllowed_written (a b : String × YV) (ha : entryAllowed memKeyTypes
     exact ha
 
 /-- **Allowed keys and types** (`qua_write_keys`): the document written for a chart whose key-sound cells are
-lists (hypothesis forced by open finding D08: `converted_chart_counterexample`) and whose metadata attributes have
+lists (`converted_chart_counterexample`: a hand-made NaN cell, as converters produced before the repair of D08, breaks it) and whose metadata attributes have
 their declared types (`string_isv_counterexample`: a string under `InitialScrollVelocity`, as the dataclass default was
 before the repair of D29, breaks it; `default_meta_typed`: default-constructed metadata satisfies it) uses only the keys the
 format defines, each with a value of the defined type — for every number of rows, lanes, times. -/
@@ -396,8 +404,9 @@ theorem qua_write_keys (c : Chart) (d : Doc) (hk : ksLists c = true) (hm : metaT
     · exact recAllowed_writeBpm b
     · exact recAllowed_writeSv s
 
-/-- D08 (open): a chart as it comes out of a converter (`cast` → `TimedList.empty`: key sounds NaN) is written
-with `KeySounds: .nan` — the hypothesis `ksLists` of `qua_write_keys` cannot be dropped. -/
+/-- D08 (fixed, commit 721c5aa): a hand-written chart with a NaN key-sound cell — what `cast` → `TimedList.empty`
+produced before the repair — is written with `KeySounds: .nan`; the hypothesis `ksLists` of `qua_write_keys` cannot be
+dropped for hand-made charts (the code itself no longer produces such a cell: correspondence check). -/
 theorem converted_chart_counterexample :
     ksLists ⟨metaTable, [⟨100, 1, .nan⟩], [], [], []⟩ = false ∧
     (write ⟨metaTable, [⟨100, 1, .nan⟩], [], [], []⟩).toOption.map
@@ -478,8 +487,9 @@ def laneI (r : Rec) : Int := match r.get "Lane" with | some (.int i) => i | _ =>
 def ksP (r : Rec) : KsCell := match r.get "KeySounds" with | some (.ks l) => .list l | _ => .nan
 def startP (r : Rec) : Rat := (cellP (r.get "StartTime")).getD 0
 def rowP (r : Rec) : NoteRow := ⟨cellP (r.get "StartTime"), cellP (r.get "EndTime"), some (laneI r : Rat), ksP r⟩
-def hitP (r : Rec) : Hit := ⟨startP r, laneI r - 1, ksP r⟩
-def holdP (r : Rec) : Hold := ⟨startP r, laneI r - 1, (nanSub (cellP (r.get "EndTime")) (some (startP r))).getD 0, ksP r⟩
+def hitP (r : Rec) : Hit := ⟨startP r, laneI r - 1, ksFill (ksP r)⟩
+def holdP (r : Rec) : Hold :=
+  ⟨startP r, laneI r - 1, (nanSub (cellP (r.get "EndTime")) (some (startP r))).getD 0, ksFill (ksP r)⟩
 def objP (r : Rec) : Obj := if hasEnd r then .hold (holdP r) else .hit (hitP r)
 
 theorem numCell_ok (r : Rec) (k : String) (h : numLike (r.get k) = true) : numCell r k = .ok (cellP (r.get k)) := by
@@ -490,7 +500,7 @@ theorem numCell_ok (r : Rec) (k : String) (h : numLike (r.get k) = true) : numCe
 
 theorem objOk_parts (r : Rec) (h : objOk r = true) :
     numLike (r.get "StartTime") = true ∧ numLike (r.get "EndTime") = true ∧
-    (∃ i, r.get "Lane" = some (.int i)) ∧ (∃ l, r.get "KeySounds" = some (.ks l)) := by
+    (∃ i, r.get "Lane" = some (.int i)) ∧ (r.get "KeySounds" = none ∨ ∃ l, r.get "KeySounds" = some (.ks l)) := by
   simp only [objOk, Bool.and_eq_true] at h
   obtain ⟨⟨⟨h1, h2⟩, h3⟩, h4⟩ := h
   refine ⟨h1, h2, ?_, ?_⟩
@@ -498,37 +508,39 @@ theorem objOk_parts (r : Rec) (h : objOk r = true) :
     | none => simp [hv] at h3
     | some v => cases v <;> simp_all
   · cases hv : r.get "KeySounds" with
-    | none => simp [hv] at h4
+    | none => exact Or.inl rfl
     | some v => cases v <;> simp_all
 
 theorem noteRowOf_ok (r : Rec) (h : objOk r = true) : noteRowOf r = .ok (rowP r) := by
-  obtain ⟨h1, h2, ⟨i, h3⟩, ⟨l, h4⟩⟩ := objOk_parts r h
+  obtain ⟨h1, h2, ⟨i, h3⟩, h4⟩ := objOk_parts r h
   have hl : numCell r "Lane" = .ok (some (i : Rat)) := by simp [numCell, h3, numOf, Except.map]
-  have hk : ksCell r = .ok (.list l) := by simp [ksCell, h4]
-  simp [noteRowOf, numCell_ok r _ h1, numCell_ok r _ h2, hl, hk, bind, Except.bind, rowP, laneI, ksP, h3, h4]
+  have hk : ksCell r = .ok (ksP r) := by
+    rcases h4 with h4 | ⟨l, h4⟩ <;> simp [ksCell, ksP, h4]
+  simp [noteRowOf, numCell_ok r _ h1, numCell_ok r _ h2, hl, hk, bind, Except.bind, rowP, laneI, h3]
 
 theorem intOfRat_sub_one (i : Int) : intOfRat ((i : Rat) - 1) = .ok (i - 1) := by
   have : ((i : Rat) - 1) = ((i - 1 : Int) : Rat) := by push_cast; rfl
   rw [this]; exact intOfRat_int _
 
 theorem denoteObj_ok (r : Rec) (h : objOk r = true) : denoteObj r = .ok (objP r) := by
-  obtain ⟨h1, h2, ⟨i, h3⟩, ⟨l, h4⟩⟩ := objOk_parts r h
+  obtain ⟨h1, h2, ⟨i, h3⟩, h4⟩ := objOk_parts r h
   have hs : startOf r = .ok (startP r) := by
     unfold startOf startP
     cases hv : r.get "StartTime" with
     | none => rfl
     | some v => rw [hv] at h1; cases v <;> first | rfl | simp [numLike] at h1
   have hl : laneOf r = .ok i := by simp [laneOf, h3, numOf, bind, Except.bind, intOfRat_int]
-  have hk : keySoundsOf r = .ok (.list l) := by simp [keySoundsOf, h4]
+  have hk : keySoundsOf r = .ok (ksFill (ksP r)) := by
+    rcases h4 with h4 | ⟨l, h4⟩ <;> simp [keySoundsOf, ksP, ksFill, h4]
   unfold denoteObj
   simp only [hs, hl, hk, bind, Except.bind]
   cases hv : r.get "EndTime" with
-  | none => simp [objP, hasEnd, hv, hitP, laneI, ksP, h3, h4]
+  | none => simp [objP, hasEnd, hv, hitP, laneI, h3]
   | some v =>
     rw [hv] at h2
     cases v with
-    | int e => simp [objP, hasEnd, hv, holdP, laneI, ksP, h3, h4, numOf, cellP, nanSub]
-    | flt e => simp [objP, hasEnd, hv, holdP, laneI, ksP, h3, h4, numOf, cellP, nanSub]
+    | int e => simp [objP, hasEnd, hv, holdP, laneI, h3, numOf, cellP, nanSub]
+    | flt e => simp [objP, hasEnd, hv, holdP, laneI, h3, numOf, cellP, nanSub]
     | _ => simp [numLike] at h2
 
 theorem all_lane_false (rs : List Rec) (hne : rs ≠ []) (F : Rec → NoteRow) (hF : ∀ r, (F r).lane.isNone = false) :
@@ -597,12 +609,11 @@ theorem readNotes_ok (ns : List Rec) (h : ∀ r ∈ ns, objOk r = true) :
       simp [hb, this, bind, Except.bind]
 
 /-- **Reading yields what the document declares** (`qua_read_defaults`): for every document whose hit objects
-have numeric times, an integer `Lane` and declared `KeySounds` — any lanes, omitted `StartTime`, omitted
+have numeric times, an integer `Lane` and `KeySounds` omitted or a list — any lanes, omitted `StartTime`, `KeySounds`, omitted
 `Bpm` / `Multiplier` / tempo `StartTime`, empty sections, hits only, holds only, a missing section (both sides
 raise the `KeyError` class), any metadata — the reader's result is the by-the-book denotation: an object with an
 end time is a hold of duration `EndTime − StartTime`, omitted keys take the format's defaults.
-The conjunct "`KeySounds` declared" of `objOk` is forced by open finding D21
-(`omitted_keysounds_counterexample`); full statement: the same with `KeySounds` omitted read as `[]`. -/
+(`omitted_keysounds_counterexample` records what the reader did before the repair of D21.) -/
 theorem qua_read_defaults (d : Doc) (h : objsDeclared d = true) : read d = denote d := by
   unfold read denote
   cases hho : d.hitObjects with
@@ -617,11 +628,14 @@ theorem qua_read_defaults (d : Doc) (h : objsDeclared d = true) : read d = denot
     have hsv : readSv = denoteSv := funext readSv_eq
     rw [hb, hsv]
 
-/-- D21 (open): a hit object that omits `KeySounds` is read with NaN key sounds, its denotation has `[]`. -/
+/-- D21 (fixed, commit 23be740): for a hit object that omits `KeySounds` the frame `pd.DataFrame(dicts)` builds
+holds a NaN cell — which is what the reader returned before the repair (hand-written pre-fix variant: the row
+without the last `from_yaml` step) — whereas the denotation has `[]`; the repaired reader (`ksFill`) returns `[]`. -/
 theorem omitted_keysounds_counterexample :
-    (read ⟨[], some [[("StartTime", .int 100), ("Lane", .int 2)]], some [], some []⟩).toOption.map (·.hits)
-      = some [⟨100, 1, .nan⟩] ∧
+    (noteRowOf [("StartTime", .int 100), ("Lane", .int 2)]).toOption.map (·.ks) = some KsCell.nan ∧
     (denote ⟨[], some [[("StartTime", .int 100), ("Lane", .int 2)]], some [], some []⟩).toOption.map (·.hits)
+      = some [⟨100, 1, .list []⟩] ∧
+    (read ⟨[], some [[("StartTime", .int 100), ("Lane", .int 2)]], some [], some []⟩).toOption.map (·.hits)
       = some [⟨100, 1, .list []⟩] := by
   decide +kernel
 
@@ -673,7 +687,7 @@ theorem qua_write_denotes (c : Chart) (d : Doc) (hm : MetaOk c.info) (hk : ksLis
   rw [hw] at h1
   simp only [bind, Except.bind] at h1
   rw [← qua_read_defaults d (objsDeclared_write c d hk hw)]
-  exact ⟨h1, closeChart_quantize c⟩
+  exact ⟨h1, closeChart_quantize c hk⟩
 
 theorem mapE_mem {α β} (f : α → Except Err β) :
     ∀ (l : List α) (l' : List β), mapE f l = .ok l' → ∀ b ∈ l', ∃ a ∈ l, f a = .ok b
